@@ -60,7 +60,7 @@ def gen_file(seed_i, nmax=10):
     msgs = []
     for _ in range(n):
         m = msggen.gen_message(wl, cfg, enc, 6000 if big else 3000)
-        if big and cfgj == "packaged" and wl.random() < 0.5:
+        if big and cfgj == "packaged" and wl.random() < 0.5 and not any(k.startswith("PDS") for k in m):
             m.update(msggen.gen_pds(wl, enc, 5, wl.choice([1200, 3000, 4500])))
         if big and cfgj == "packaged" and wl.random() < 0.5:
             # records well above 4096 bytes: four long LLLVAR text elements
@@ -297,6 +297,39 @@ def judge(scn, want_text=True):
     return fails, info
 
 
+def judge_continued(scn):
+    """two bad records, the first one at message level (framing intact); the application catches the first
+    error and keeps iterating the same reader.  Judged conservatively: IF a second data error is raised for
+    the later bad record, it must carry that record's number and bytes, and the records delivered in
+    between must be the originals.  A reader that simply stops after its first error is not judged."""
+    image, stored = corrupt.file_image(scn)
+    cstored, cout = _control(scn)
+    if cout.kind != "stop" or len(cout.items) != len(stored):
+        return []
+    _, out = corrupt.run_file(dict(scn, reader="IpmReader", style="continue"), image)
+    if out.kind in ("foreign", "budget") or len(out.errors) < 2:
+        return []
+    k1, k2 = sorted(rf["record"] for rf in scn["rec_faults"])[:2]
+    (n1, r1, c1, t1), (n2, r2, c2, t2) = out.errors[0], out.errors[1]
+    fails = []
+    if n1 != k1 - 1 or r1 != k1:
+        return []      # the single-fault rules (judge) own the first error
+    # records k1+1 .. k2-1 must have been delivered in between
+    want_between = cout.items[k1:k2 - 1]
+    got_between = out.items[n1:n2]
+    if n2 - n1 == len(want_between) and got_between == want_between:
+        if r2 != k2:
+            fails.append({"oracle": "C10.continued.second_bad_record_reported_with_its_own_number",
+                          "detail": f"bad records {k1} and {k2}; after the error for record {k1} the application kept iterating: "
+                                    f"{len(want_between)} good records followed, then an error with record_number == {r2} (expected {k2})",
+                          "sig": "C10.continued.second_bad_record_reported_with_its_own_number"})
+        elif t2 is not None and bytes(c2 or b"") != stored[k2 - 1]:
+            fails.append({"oracle": "C10.continued.second_bad_record_context",
+                          "detail": f"second error (record {k2}) carries {len(c2 or b'')} context bytes, the record has {len(stored[k2 - 1])}",
+                          "sig": "C10.continued.second_bad_record_context"})
+    return fails
+
+
 def run_file_seed(seed_i, tier, part):
     base = gen_file(seed_i, nmax=10 if tier == "quick" else 14)
     image, stored = corrupt.file_image(base)
@@ -362,6 +395,31 @@ def run_file_seed(seed_i, tier, part):
                 if sum(1 for x in part["fails"] if x["sig"] == v["sig"]) < 1 and len(part["fails"]) < 12:
                     v["scenario"] = scn
                     part["fails"].append(v)
+    # two bad records, iteration continued after the first (message-level) error
+    if n >= 3:
+        rng = Streams(seed_i)["faults"]
+        for _ in range(6):
+            k1 = rng.randint(1, n - 1)
+            k2 = rng.randint(k1 + 1, n)
+            kind1 = rng.choice(["bad_int", "bad_prefix", "unknown_bit", "trailing_byte", "bad_date"])
+            kind2 = rng.choice(["bad_int", "bad_prefix", "unknown_bit", "trailing_byte", "mti_nonnumeric", "oversize_length"])
+            pf = []
+            for kk, kind in ((k1, kind1), (k2, kind2)):
+                rec = stored[kk - 1][4:]
+                rd = refiso.ref_read(rec, cfg, enc, False)
+                one = plan_fault(kind, kk, rec, rd, enc, cfg, offsets, base["blocked"]) if rd.cls == refiso.ACCEPT else None
+                pf.append(one)
+            if pf[0] is None or pf[1] is None:
+                continue
+            scn = dict(base, rec_faults=pf[0][0] + pf[1][0], file_faults=[], continued=True)
+            fails = judge_continued(scn)
+            part["evals"] += 1
+            c["fault:two_bad_records_iteration_continued"] += 1
+            part["sigs"].add(sig64("C10c", fd, k1, k2, kind1, kind2))
+            for v in fails:
+                if sum(1 for x in part["fails"] if x["sig"] == v["sig"]) < 1 and len(part["fails"]) < 12:
+                    v["scenario"] = scn
+                    part["fails"].append(v)
     part["digests"].append(h.hexdigest()[:16])
     if len(part["samples"]) < 1 and len(stored) >= 2:
         from .c09 import _brief
@@ -398,6 +456,8 @@ def digest_slice(seed):
 
 
 def judge_scenario(scn):
+    if scn.get("continued"):
+        return judge_continued(scn)
     return judge(scn)[0]
 
 
@@ -442,7 +502,7 @@ def minimise(scn, oracle):
             return False
 
     cur = dict(scn)
-    if not cur.get("planned") or not ok(cur):
+    if cur.get("continued") or not cur.get("planned") or not ok(cur):
         return scn
     k = cur["planned"]["record"]
     if cur.get("blocked") and ok(dict(cur, blocked=False)):
